@@ -38,7 +38,8 @@ structure Basic (cfg : Cfg) (s : St) : Prop where
   fin_or : finishedPc s.f = true → s.fin ≠ none ∨ s.res ≠ none ∨ s.ctx1 = true
   ret_term : (s.cons = .join ∨ s.cons = .ret) ↔ s.term1 = true
   /-- fix B2: the terminal returns only after the filler goroutine is gone -/
-  ret_done : s.cons = .ret → s.f = .done
+  ret_done : cfg.fixJoin = true → s.cons = .ret → s.f = .done
+  join_fix : s.cons = .join → cfg.fixJoin = true
   res_iff : s.res = none ↔ (s.cons = .check ∨ s.cons = .sel ∨ s.cons = .got)
   stopped_res : s.stopped = true → s.res ≠ none
   dropped_ctx : s.dropped = true → s.ctx1 = true
@@ -52,7 +53,7 @@ theorem basic_init (cfg : Cfg) : Basic cfg (init cfg) := by
 set_option maxHeartbeats 4000000 in
 theorem basic_step {cfg : Cfg} {s s' : St} {l : Label} (h : Basic cfg s) (hs : step cfg s l = some s') :
     Basic cfg s' := by
-  obtain ⟨h1, h2, h3, h4, h5, h6, h7, h8, h9, h10, h10', h11, h12, h13, h14, h15, h16⟩ := h
+  obtain ⟨h1, h2, h3, h4, h5, h6, h7, h8, h9, h10, h10', h10'', h11, h12, h13, h14, h15, h16⟩ := h
   step_cases hs <;>
     (constructor <;> (try (simp_all [St.ctx1, St.chLen, pOpenPc, okPc, livePc, finishedPc])) <;> (try grind))
 
@@ -88,7 +89,7 @@ set_option maxHeartbeats 2000000 in
 theorem okComplete_step {cfg : Cfg} {s s' : St} {l : Label} (hfix : cfg.fix7 = true)
     (hb : Basic cfg s) (hc : Conserve s) (h : OkComplete cfg s) (hs : step cfg s l = some s') :
     OkComplete cfg s' := by
-  obtain ⟨h1, h2, h3, h4, h5, h6, h7, h8, h9, h10, h10', h11, h12, h13, h14, h15, h16⟩ := hb
+  obtain ⟨h1, h2, h3, h4, h5, h6, h7, h8, h9, h10, h10', h10'', h11, h12, h13, h14, h15, h16⟩ := hb
   have hmark : s.fin = some .marker → s.ch = [] → ∀ i, i < cfg.n → s.delivered.count i = 1 := by
     intro hf hch i hi
     have hnd : s.dropped = false := by
